@@ -130,7 +130,7 @@ class Root(Controller):
             self.cookie['c']['path'] = '/'
         k = h['kind']
         ps = [piece(p) for p in h['chunks']]
-        if k in ('str', 'bytes', 'list') and h.get('stream'):
+        if k in ('str', 'bytes', 'list', 'yield') and h.get('stream'):
             res.stream = True
         if k == 'str':
             return ''.join(ps)
@@ -359,7 +359,6 @@ class C15(Prop):
     assumptions = ['application sets neither Transfer-Encoding nor Connection itself (passed through verbatim / added on top of the computed framing); '
                    'a Content-Length it sets on an iterator body is the true length (on sized bodies it is overwritten: modelled and proved); '
                    'header values and cookies contain no CR/LF and are ASCII',
-                   'Response.stream is only set on iterator/file bodies or on empty bodies (stream on a non-empty str/list body makes next() raise: modelled as Crash, excluded)',
                    'error pages of errors.py: only length and framing are modelled, not the content',
                    'status 100 is not generated (http.client skips 100 Continue by design)']
 
@@ -394,9 +393,10 @@ class C15(Prop):
                 h['stream'] = rng.random() < 0.75
             if kind == 'iter':
                 h['stream'] = rng.random() < 0.6
-            elif kind in ('str', 'bytes', 'list') and rng.random() < 0.12:
-                # the stream flag on a body that is not an iterator only works for an empty body
-                h['chunks'] = [] if kind == 'list' else [['s' if kind == 'str' else 'b', '', 0]]
+            elif kind in ('str', 'bytes', 'list', 'yield') and rng.random() < 0.2:
+                # Response.stream on a complete body: str, bytes, list, or a generator the core runs as a coroutine
+                if rng.random() < 0.3 and kind != 'yield':
+                    h['chunks'] = [] if kind == 'list' else [['s' if kind == 'str' else 'b', '', 0]]
                 h['stream'] = True
         if kind not in WSGI and rng.random() < 0.25:
             h['cookie'] = True
@@ -517,6 +517,11 @@ class C15(Prop):
                 cases.append({'reqs': [{'m': m, 'v': v, 'conn': 'keep-alive', 'h': h},
                                        {'m': 'GET', 'v': v, 'conn': None, 'h': self._handler(rng, 'str', True)}]})
         cases += self.followups(rng, 1 if tier != 'thorough' else 4)
+        # Response.stream set on a complete body (handler returns str / bytes / list / a generator run as a coroutine)
+        for kind, v in itertools.product(('str', 'bytes', 'list', 'yield'), ['1.1', '1.0']):
+            h = {'kind': kind, 'tag': '8', 'status': None, 'chunks': self._bodies[kind], 'stream': True}
+            cases.append({'reqs': [{'m': 'GET', 'v': v, 'conn': 'keep-alive', 'h': h},
+                                   {'m': 'GET', 'v': v, 'conn': None, 'h': self._handler(rng, 'str', True)}]})
         for kind in ('none', 'raise', 'yield0', 'yield', 'list'):
             h = {'kind': kind, 'tag': '4', 'status': None, 'chunks': self._bodies.get(kind, []), 'stream': False, 'cookie': True}
             cases.append({'reqs': [{'m': 'GET', 'v': '1.1', 'conn': None, 'cookie': True, 'h': h}]})
@@ -563,7 +568,8 @@ class C15(Prop):
             p.log = []
             m.fire(read(s, req_bytes(i, r)), 'web')
             idle = 0
-            for _ in range(5000):
+            storm = False
+            for _ in range(1500):
                 m.tick(0)
                 if not m._tasks and not len(m):
                     idle += 1
@@ -571,8 +577,11 @@ class C15(Prop):
                         break
                 else:
                     idle = 0
+                if len(p.log) > 400:
+                    break
             else:
-                raise RuntimeError('event loop does not become idle')
+                storm = True
+            storm = storm or len(p.log) > 400
             ws, after = [], []
             for e in p.log:
                 if e[0] == 'c':
@@ -582,6 +591,9 @@ class C15(Prop):
                 else:
                     ws.append(e[1].decode('latin1'))
             out.append({'w': ws, 'closed': closed, 'after_close': after})
+            if storm:       # the loop never comes to rest: keep what identifies the storm, drop the rest
+                out[-1] = {'w': ws[:3], 'closed': closed, 'after_close': after[:3], 'storm': len(p.log)}
+                break
         return out
 
     # ------------------------------------------------------------------ model side
@@ -768,6 +780,9 @@ class C15(Prop):
         return None
 
     def _oracle1(self, r, h, ob, idx=0):
+        if ob.get('storm'):
+            return ('the event loop never comes to rest: after %d write/close events for this one request responses are still '
+                    'being written (first writes: %s)' % (ob['storm'], ' | '.join(w[:40].replace('\r\n', ' ') for w in ob['w'] + ob['after_close'])))
         data = b''.join(w.encode('latin1') for w in ob['w'])
         if not data:
             return 'no response written'
